@@ -572,10 +572,12 @@ extern "C" int __wrap___cxa_guard_acquire(uint64_t *g) {
   }
   b[1] = 1;
   c->in_static_init++;
-  if (lib) {
-    guard_register(g);
-    S.stats->guard_inits++;
-  }
+  // Every function-local static is registered, whoever initialises it first:
+  // a template static of the library may be reached first by harness code
+  // (an oracle building a twin), and a world must not inherit it from its
+  // predecessors in the process - one run has to be a function of its plan.
+  guard_register(g);
+  if (lib) S.stats->guard_inits++;
   return 1;
 }
 
